@@ -25,7 +25,8 @@ Inductive rexp :=
 | RArr (l : list rexp)
 | RObj (kvs : list (bytes * rexp))     (* struct or typed-map literal *)
 | REach (r : rexp)                     (* results of a mapped call, per fork *)
-| RWith (d : dset) (r : rexp).         (* r, and additionally d whatever is projected *)
+| RWith (d : dset) (r : rexp)          (* r, and additionally d whatever is projected *)
+| RAny (l : list rexp).                (* one of these (an element of a split literal) *)
 
 Fixpoint rproj (r : rexp) (k : bytes) : rexp :=
   match r with
@@ -42,6 +43,7 @@ Fixpoint rproj (r : rexp) (k : bytes) : rexp :=
       end
   | REach r' => REach (rproj r' k)
   | RWith d r' => RWith d (rproj r' k)
+  | RAny l => RAny (map (fun x => rproj x k) l)
   end.
 
 Fixpoint rflat (r : rexp) : dset :=
@@ -51,6 +53,17 @@ Fixpoint rflat (r : rexp) : dset :=
   | RObj kvs => List.concat (map (fun kv => rflat (snd kv)) kvs)
   | REach r' => rflat r'
   | RWith d r' => d ++ rflat r'
+  | RAny l => List.concat (map rflat l)
+  end.
+
+(* what one element of a collection depends on (the argument of a mapped call) *)
+Fixpoint relem (r : rexp) : rexp :=
+  match r with
+  | RArr l => RAny l
+  | RObj kvs => RAny (map snd kvs)
+  | REach r' => r'
+  | RWith d r' => RWith d (relem r')
+  | _ => r
   end.
 
 Definition rpath (r : rexp) (path : list bytes) : rexp := fold_left rproj path r.
@@ -93,12 +106,7 @@ Section Deps.
               let binds := map (fun b : bytes * (bool * exp) =>
                                   let r := exp_r ins calls (snd (snd b)) in
                                   (* a split argument delivers one element *)
-                                  (fst b, if fst (snd b) then
-                                            match r with
-                                            | RArr l => RLeaf (rflat r)
-                                            | _ => r
-                                            end
-                                          else r)) (c_binds c) in
+                                  (fst b, if fst (snd b) then relem r else r)) (c_binds c) in
               (* the number of results of a mapped call is known only when the
                  collection it maps over is: a reference must be resolved first
                  (a literal collection has a static size; its elements matter
